@@ -14,6 +14,7 @@ from props import C11
 from vlib import faults, gen_json as G, gen_metadata as GM, gen_repodata as GR, gpgstub, keys, ref_grammar as g, ref_openpgp, \
     ref_verify as RV
 from vlib.ref_canon import canon, jeq
+from vlib import cfgunit as _cfgunit
 from vlib.runner import Unit, Violation
 
 PROPERTY = "C18"
@@ -368,4 +369,5 @@ UNITS = [
          doc="exception injected at every executed line event of the signing procedures, per generated document"),
     Unit("malformed", check_bad, strategy=_bad_cases, quick=400, thorough=12000, shards_quick=8,
          doc="malformed inputs, wrong-typed arguments and signer faults: the call fails and the file is byte-identical"),
+    _cfgunit.unit_under_config(PROPERTY, 'malformed', exclude=()),
 ]
